@@ -21,6 +21,10 @@ CHECKS = {
    text="Seeded simulation of an environment that drives sm3.New() through random chunkings and operation histories (Write/Sum(nil)/Sum(prefix)/Reset), compared op by op with an independent reference SM3; HMAC and PBKDF2 instantiated over both. Sampling, not enumeration: weakest fit of the claimed properties (no faults exist in the hash.Hash interface), claimed for its stream/history dimension.",
    note="Trusts refsm3 (written from GM/T 0004, validated against the standard's examples and 44 OpenSSL 3.5.6 vectors), stdlib crypto/hmac and x/crypto/pbkdf2 as the definitions.",
    technique="deterministic simulation: seeded choice stream drives write-chunking and call histories of the streaming hash; reference-model oracle after every operation; ddmin-minimised replay files"),
+ "C06": dict(level="exploration", design="5 (C06), Appendix A",
+   text="Seeded simulation of complete connections: real gmtls client and server (stdlib crypto/tls as third implementation on the TLS path) as tasks over a simulated network whose segmentation, latency, short reads, finite windows, read-deadline expiries and task schedule are all choices; every configuration axis of the property is redrawn per run. Outcome is compared with a small policy model where the documentation is unambiguous; both ends must agree on version, suite, certificates, exported keying material and byte streams.",
+   note="Trusts the policy model (Appendix A; ambiguous combinations are 'unspecified'), the fixture PKI, the reference primitives (validated against OpenSSL 3.5.6) and go1.23.5's crypto/tls as independent TLS 1.0-1.2 implementation.",
+   technique="deterministic simulation: whole client/server system in one process over a simulated network and virtual clock with a seeded scheduler; benign network nondeterminism injected; policy-model, agreement and stream-equality oracles; ddmin-minimised replay files"),
  "C19": dict(level="exploration", design="5 (C19)",
    text="Seeded simulation of the sources and sinks around the streaming PKCS#7 helpers: every Read/Write size and behaviour (short non-EOF read, 1-byte, (0,nil), data+EOF) is a choice; a separate fault family injects one source or sink error at a drawn offset. Oracle: reference padding model (exact equality fault-free; error surfaced and emitted bytes a prefix under an injected error).",
    note="Trusts the 6-line refpad model and stdlib AES/DES-CBC (used as the block mode so SM4 changes cannot raise C19 alarms).",
